@@ -7,7 +7,8 @@
 //!     sign-in (C20); compaction leaves the model unchanged, and after change_account_password the old password no
 //!     longer signs in while the new one does and serves the same model (C12);
 //!   * export_backup_archive, import into EMPTY storage of the same backend kind, sign in with the same
-//!     password: same folders and decrypted secrets (C18 sentence 1);
+//!     password: same folders and decrypted secrets (C18 sentence 1; event-log identity is NOT demanded: the
+//!     file-system archive rebuilds folder logs from the vaults);
 //!   * an archive in which one non-manifest entry is modified (manifest kept), and — when the entry exists —
 //!     `preferences.json` replaced with manifest checksums "" / "00" / 32 zero bytes, is rejected and no
 //!     account exists afterwards (C18 sentence 2);
@@ -230,7 +231,9 @@ pub async fn run(cases: usize, seed: u64) {
                         }
                     }
                     6 => {
-                        let name = format!("folder-{}", r.below(100000));
+                        // one in three new folders takes the NAME of an existing folder (names need not be unique)
+                        let existing: Vec<String> = model.values().map(|v| v.0.clone()).collect();
+                        let name = if r.below(3) == 0 { existing[r.below(existing.len() as u64) as usize].clone() } else { format!("folder-{}", r.below(100000)) };
                         let f = account.create_folder(NewFolderOptions::new(name.clone())).await.unwrap().folder;
                         model.insert(*f.id(), (name, BTreeMap::new()));
                         trace.push("create_folder".into());
